@@ -656,6 +656,9 @@ func (c *fnCtx) resultNames() []string {
 		if n == "" || n == "_" {
 			if res.Len() == 1 {
 				n = "result"
+				if _, isParam := c.paramVals["result"]; isParam {
+					n = "ret"
+				}
 			} else {
 				n = fmt.Sprintf("result%d", i)
 			}
@@ -676,7 +679,9 @@ func (c *fnCtx) bindResults(env *Env, rs []SymVal) {
 			}
 			env.vars[names[i]] = r
 			if len(rs) == 1 {
-				env.vars["result"] = r
+				if _, isParam := c.paramVals["result"]; !isParam {
+					env.vars["result"] = r
+				}
 			} else {
 				env.vars[fmt.Sprintf("result%d", i)] = r
 			}
